@@ -386,7 +386,9 @@ def nontrivial(case):
 
 def histories():
     step = st.one_of(st.tuples(st.just("scale"), st.sampled_from([0.5, 2.0, 1.0, 0.1, 3.0, 1e-3, 7.25])),
-                     st.tuples(st.just("date"), st.sampled_from([-10, 0, 1, 200, 365, 900, 1825, 1826, 3000])),
+                     st.tuples(st.just("date"), st.one_of(st.sampled_from([-10, 0, 1, 200, 365, 900, 1825, 1826, 3000]),
+                                                          st.sampled_from([40, 58, 59, 761, 775, 788, 789, 790]),      # February (2010, and the leap year 2012)
+                                                          st.integers(1, 1825))),
                      st.tuples(st.just("read"), st.sampled_from([0, 1])),
                      st.tuples(st.just("scale_array"), st.sampled_from(["row", "col", "full"])))
     return st.lists(step.map(list), max_size=5)
